@@ -25,3 +25,4 @@ open Nitime.C20.Props
 #print axioms zscore_along_axis
 #print axioms percent_change_along_axis
 #print axioms corrspec_sums_to_pearson
+#print axioms xcorr_norm_zero_lag
